@@ -37,7 +37,7 @@ def run(ctx):
         "distribution": st,
     })
     ctx.assumptions += [
-        "values whose type involves a user-asserted binding (`as`, `type`) are not checked (the user asserts the representation)",
+        "values whose type involves a user-asserted binding (`as`, `type`) are not checked (the user asserts the representation) unless the generator made the assertion true of the serialised form (`type = \"string\"` on a String, `as = \"Box<T>\"` on a T, ..)",
         "values whose JSON has duplicate keys (a flattened type colliding with its host: generator artefact, not valid input) are skipped",
         "floats are finite (non-finite floats are a documented known class: serde emits null)",
     ]
@@ -51,7 +51,7 @@ def check_one(ctx, res, seed, st, samples, distinct):
         raise vlib.HarnessError("Spec/TsSem.v does not build: " + out[-2000:])
     mism = [m for m in res["mismatches"] if m["field"] in ("name", "inline", "decl", "decl_concrete", "flat")]
     st["text_cases"] += 5 * len(qs)
-    ov = S.overrides(res)
+    ov = S.overrides(res, sound_ok=True)
     cases = []
     for (qi, k), text in sorted(res["v"].items()):
         st["values"] += 1
